@@ -224,8 +224,9 @@ Symbol& Context::registerSymbol(const std::string& name, const Type& type)
       break;
     }
   }
-  /* back up old symbol */
-  _backed_symbols.push_back(*s);
+  /* back up old symbol, to be restored at the end of the parsing */
+  if (_parsing)
+    _backed_symbols.push_back(*s);
   s->upgrade(type);
   return *s;
 }
@@ -265,8 +266,9 @@ Symbol& Context::registerSymbol(const std::string& name, const TupleDecl::Decl& 
       break;
     }
   }
-  /* back up old symbol */
-  _backed_symbols.push_back(*s);
+  /* back up old symbol, to be restored at the end of the parsing */
+  if (_parsing)
+    _backed_symbols.push_back(*s);
   s->upgrade(decl, level);
   return *s;
 }
